@@ -120,6 +120,10 @@ pzgstrf_thread_finalize(pzgstrf_threadarg_t *pzgstrf_threadarg,
     PrintInt10("inv_perm_r", n, pxgstrf_shared->inv_perm_r);
 #endif
 
+    /* Release the per-thread working storage kept in a user-supplied
+       work space (all threads have terminated). */
+    pzgstrf_WorkFreeAll();
+
     /* Deallocate the storage used by the parallel scheduling algorithm. */
     ParallelFinalize(pxgstrf_shared);
     SUPERLU_FREE(pzgstrf_threadarg);
